@@ -685,6 +685,37 @@ def declined_cleanup(prog, an, rep):
         rep.check(ok and bool(ex), R, f.qname + ': removes only an existing '
                   'branch', f.where(n), 'remove without exists()',
                   path=c.describe_path(path))
+    # ... and removes every existing one: within the walk over the (name,
+    # target) pairs no iteration ends -- next pair, break, or way out of
+    # the function -- before the existence of that pair's branch was tested
+    # (the removal does not depend on a pull request having been declined:
+    # integration pull requests may be switched off, or declined by hand,
+    # or declined by a run that crashed before the push)
+    if rloop is not None and wbv:
+        tests = [n.id for n in c.nodes.values() if n.kind == 'test' and
+                 n.ast is not None and (wbv + '.exists()') in src(n.ast)]
+        heads = [n for n in c.nodes.values() if n.kind == 'loop' and
+                 n.ast is rloop]
+        starts = [n for n in c.nodes.values() if n.kind == 'true' and
+                  n.ast is rloop and heads and n.test == heads[0].id]
+        rep.floor('C19 removal loop anchors', len(tests) and len(starts), 1)
+        for tgt, what in ((heads[0].id, 'the next pair'),
+                          (c.exit, 'the end of the function')):
+            rep.evaluated()
+            gates = set(tests) | ({heads[0].id} if tgt != heads[0].id
+                                  else set())
+            p_ = c.path(starts[0].id, tgt, removed=gates, use_exc=False)
+            if tgt != heads[0].id and p_ is None:
+                # falling out of the loop after the last pair is the
+                # `exhausted` branch of the head, not a skipped pair
+                pass
+            rep.check(p_ is None, R, f.qname + ': every existing w/ branch '
+                      'of the pairs is removed (%s)' % what, f.where(rloop),
+                      'an iteration of the walk over the (name, target) '
+                      'pairs reaches %s without testing `%s.exists()`: the '
+                      'w/ branch of that target stays on the remote while '
+                      'the parent is DECLINED' % (what, wbv),
+                      path=c.describe_path(p_) if p_ else None)
     # whatever was declined or removed is published: from each such site
     # every way out of the function goes through the push
     pushed = an.gate_nodes(f, Spec.func('bert_e.workflow.git_utils.push'),
